@@ -17,6 +17,7 @@ Decided (structure of the loaders, for all file contents at once):
 Not decided: faithfulness of the bisection in tzm_find over all maps (a data-structure invariant over variable-length
 records) -- see DESIGN.md.
 """
+import os
 from core import (AnalysisBroken, strip, kids, const_of, call_args, expr_text, walk, guards_of, norm_cond, CASTS, member_path, local_defs)
 import linform
 import intervals
@@ -655,6 +656,58 @@ def check_keyend(P, R):
                       "bisection probes it again for ever" % cur.get("n"), x)
 
 
+def check_wholekey(P, R):
+    """the map compiler looks zone names up in a pool of NUL-terminated names: comparing the first n characters (n = the length of
+    the name looked for) finds a longer name that merely begins with it unless the terminator at position n is tested as well"""
+    rule = "RF-wholekey"
+    tus = [t for t in P.tus if os.path.basename(t.main) == "tzmap.c"]
+    if not tus:
+        raise AnalysisBroken("%s: tzmap.c is not part of the build" % rule)
+    seen = set()
+    n = 0
+    for t in tus:
+        for fn in t.functions.values():
+            if getattr(fn, "body", None) is None or not fn.file.endswith("tzmap.c"):
+                continue
+            for c in list(fn.calls("strncmp")) + list(fn.calls("strncasecmp")):
+                key = (fn.name, c.get("l"))
+                if key in seen:
+                    continue
+                seen.add(key)
+                a = call_args(c)
+                if len(a) < 3 or const_of(a[2]) is not None:
+                    continue
+                # the test the call stands in
+                top = c
+                par = fn.parent(top)
+                ordering = False
+                while par is not None and par.get("k") not in ("ForStmt", "WhileStmt", "IfStmt", "DoStmt", "ConditionalOperator", "ReturnStmt",
+                                                                "CompoundStmt", "DeclStmt", "Var"):
+                    if par.get("k") == "BinaryOperator" and par.get("op") in ("<", ">", "<=", ">="):
+                        ordering = True
+                    top = par
+                    par = fn.parent(par)
+                if ordering:
+                    continue            # an ordering test (ascending keys), not a look-up
+                R.saw(fn)
+                n += 1
+                ntxt = expr_text(strip(a[2]))
+                bases = {expr_text(strip(a[0])), expr_text(strip(a[1]))}
+                ok = False
+                for y in walk(top):
+                    if y.get("k") == "ArraySubscriptExpr" and expr_text(strip(y["c"][1])) == ntxt and expr_text(strip(y["c"][0])) in bases:
+                        ok = True
+                if ok:
+                    R.ob(rule, "%s line %s: the comparison of the first `%s` characters goes with a test of the character behind them" % (
+                        fn.name, c.get("l"), ntxt), True)
+                else:
+                    R.finding(rule, fn, "%s(%s) line %s" % (c.get("callee"), ", ".join(expr_text(strip(x))[:20] for x in a), c.get("l")),
+                              "names are compared over the first `%s` characters only: a pooled name that merely begins with the one looked "
+                              "for is taken for it (Etc/GMT+1 for Etc/GMT), and keys mapped to the shorter name get the longer one's zone"
+                              % ntxt, c)
+    R.floor(rule, "look-ups by length-limited comparison in tzmap.c", n, 1)
+
+
 def check_tzm_format(P, R):
     """the record word: writer  htobe32((off & MASK) << SH)  /  reader  be32toh(word) >> SH  /  validator's byte picture"""
     rule = "RF2-tzm"
@@ -738,6 +791,7 @@ def check(P, R, tier):
     check_types(P, R, tu, lfm)
     check_tzmap(P, R)
     check_keyend(P, R)
+    check_wholekey(P, R)
     check_tzm_format(P, R)
     import tzmdecode
     nv = tzmdecode.run(R, P, "RF2-tzmvalid")
